@@ -7,7 +7,8 @@ for pid in sys.argv[1:]:
     sp = importlib.util.spec_from_file_location('p', os.path.join(ROOT, 'props', pid + '.py')); m = importlib.util.module_from_spec(sp); sp.loader.exec_module(m)
     fixed_ids = set(x['id'] for x in kf['findings'] if x['status'] == 'fixed')
     for f in getattr(m, 'PENDING_FINDINGS', []):
-        if f['id'] in fixed_ids: continue   # already repaired in /repo: a fixed entry suppresses nothing
+        if f['id'] in fixed_ids: continue
+        if not f.get('harness') or not f.get('exclude_define'): continue   # documentation-only entries (no input region to exclude)   # already repaired in /repo: a fixed entry suppresses nothing
         e = dict(id=f['id'], property=pid, status='open', harness=f['harness'], exclude_define=f['exclude_define'], witness_config=f.get('witness_config', {}),
                  witness_inputs=f['witness_inputs'], what=f['what'])
         if f.get('configs'): e['configs'] = f['configs']
